@@ -25,7 +25,7 @@ use midnight_proofs::{
 };
 use num_bigint::BigUint;
 use num_integer::Integer;
-use num_traits::One;
+use num_traits::{One, Zero};
 #[cfg(any(test, feature = "testing"))]
 use {
     crate::testing_utils::FromScratch,
@@ -440,7 +440,11 @@ where
         x: &AssignedBigUint<F>,
         y: &AssignedBigUint<F>,
     ) -> Result<(AssignedBigUint<F>, AssignedBigUint<F>), Error> {
-        let (q_value, r_value) = x.value().zip(y.value()).map(|(x, y)| x.div_rem(&y)).unzip();
+        // A zero divisor has no valid (q, r); witness (0, x), which the constraints
+        // below reject (`r < y` cannot hold).
+        let (q_value, r_value) = (x.value().zip(y.value()))
+            .map(|(x, y)| if y.is_zero() { (BigUint::zero(), x) } else { x.div_rem(&y) })
+            .unzip();
 
         let q = self.assign_bounded(layouter, q_value, x.nb_bits())?;
         let r = self.assign_bounded(layouter, r_value, y.nb_bits())?;
